@@ -45,7 +45,7 @@ func init() {
 		},
 		Plan: func(tier string) fw.Plan {
 			if tier == "thorough" {
-				return fw.Plan{Shards: 16, CasesPerShard: 120000, TimeoutSec: 3300}
+				return fw.Plan{Shards: 64, CasesPerShard: 60000, Parallel: 16, TimeoutSec: 3300}
 			}
 			return fw.Plan{Shards: 16, CasesPerShard: 30000, TimeoutSec: 900}
 		},
